@@ -242,6 +242,104 @@ func genApis(w io.Writer) {
 	fmt.Fprintln(w, "].")
 	fmt.Fprintln(w)
 
+	// the key-use cone of the call graph
+	kindOf := map[int]int{}
+	rootName := map[int]string{}
+	for _, l := range [][]apiInfo{infos, infosClique} {
+		for _, inf := range l {
+			for _, m := range inf.methods {
+				r := c18RootOf(m.Recv, m.GoName)
+				if id, ok := res.Cone.RootIDs[r.String()]; ok {
+					if rpc.VerifIsProtectedMethodName(m.GoName) && !m.Subscription {
+						kindOf[id] = 3
+					} else {
+						kindOf[id] = 4
+					}
+					rootName[id] = inf.api.Namespace + "_" + m.Name
+				}
+			}
+		}
+	}
+	fmt.Fprintln(w, "(* The key-use cone: every function of the program from which a keystore signing entry point is reachable in the")
+	fmt.Fprintln(w, "   VTA call graph (backward slice from the entry points), as a graph.  Node kinds: 0 other function, 1 signing entry")
+	fmt.Fprintln(w, "   point, 2 clique.Clique.Seal, 3 RPC callback with a protected name, 4 RPC callback without one (or subscription).")
+	for i, n := range res.Cone.Names {
+		fmt.Fprintf(w, "   %d %s\n", i, strings.ReplaceAll(n, "(*", "(ptr "))
+	}
+	fmt.Fprintln(w, "*)")
+	fmt.Fprintln(w, "Definition gen_cone_nodes : list (N * N) := [")
+	for i := range res.Cone.Names {
+		k := kindOf[i]
+		if res.Cone.Target[i] {
+			k = 1
+		} else if res.Cone.Seal[i] {
+			k = 2
+		}
+		sep := ";"
+		if i == len(res.Cone.Names)-1 {
+			sep = ""
+		}
+		fmt.Fprintf(w, "  (%d, %d)%%N%s\n", i, k, sep)
+	}
+	fmt.Fprintln(w, "].")
+	fmt.Fprintln(w, "Definition gen_cone_edges : list (N * N) := [")
+	for i, e := range res.Cone.Edges {
+		sep := ";"
+		if i == len(res.Cone.Edges)-1 {
+			sep = ""
+		}
+		fmt.Fprintf(w, "  (%d, %d)%%N%s\n", e[0], e[1], sep)
+	}
+	fmt.Fprintln(w, "].")
+	fmt.Fprintln(w, "(* the RPC callbacks in the cone: node id, ns_wire *)")
+	fmt.Fprintln(w, "Definition gen_cone_callbacks : list (N * bytes) := Eval vm_compute in [")
+	var ids []int
+	for id := range rootName {
+		ids = append(ids, id)
+	}
+	sort.Ints(ids)
+	for i, id := range ids {
+		sep := ";"
+		if i == len(ids)-1 {
+			sep = ""
+		}
+		fmt.Fprintf(w, "  (%d%%N, %s)%s\n", id, c18Str(rootName[id]), sep)
+	}
+	fmt.Fprintln(w, "].")
+	fmt.Fprintln(w)
+
+	fmt.Fprintln(w, "(* argument lists of every callback / subscription as rpc.suitableCallbacks records them (callback.argTypes, receiver and")
+	fmt.Fprintln(w, "   context excluded): (receiver type, Go method name, one bool per argument: true = pointer type, i.e. optional) *)")
+	fmt.Fprintln(w, "Definition gen_arg_ptrs : list (bytes * bytes * list bool) := Eval vm_compute in [")
+	firstA := true
+	seenA := map[string]bool{}
+	emitArgs := func(ms []rpc.VerifMethod) {
+		for _, m := range ms {
+			key := m.Recv.String() + "|" + m.GoName
+			if seenA[key] {
+				continue
+			}
+			seenA[key] = true
+			if !firstA {
+				fmt.Fprintln(w, ";")
+			}
+			firstA = false
+			var fl []string
+			for _, t := range m.ArgTypes {
+				fl = append(fl, c18Bool(t.Kind() == reflect.Ptr))
+			}
+			fmt.Fprintf(w, "  (%s, %s, [%s])", c18Str(m.Recv.String()), c18Str(m.GoName), strings.Join(fl, "; "))
+		}
+	}
+	for _, l := range [][]apiInfo{infos, infosClique} {
+		for _, inf := range l {
+			emitArgs(inf.methods)
+		}
+	}
+	emitArgs(metaMethods)
+	fmt.Fprintln(w, "].")
+	fmt.Fprintln(w)
+
 	fmt.Fprintln(w, "(* runtime names (runtime.Frame.Function) of the functions containing a direct call of Server.RegisterName *)")
 	for _, tr := range []string{"inproc", "ipc", "http", "ws"} {
 		fmt.Fprintf(w, "Definition gen_caller_%s : bytes := Eval vm_compute in %s.\n", tr, c18Str(startNames[tr]))
